@@ -222,9 +222,10 @@ def denotes(bl):
     items = bl.fields[(None, 0)].v.attrs["items"]
     out = []
     empty = False
-    for c in items:
+    for k, c in enumerate(items):
         s, l = win(c.v)
-        empty |= l == 0
+        # an empty entry at the FRONT makes chunk() empty although bytes remain (breaks the Buf contract the decoders rely on)
+        empty |= (l == 0 and k == 0 and len(items) > 1)
         out += list(range(s, s + l))
     return out, empty
 
